@@ -12,6 +12,8 @@ Overview
   whole file    mapping_entries, entries_sfObject, after_sound, after_sound_single,
                 after_sound_property (the property's ordering clause, verbatim)
   totality      premapping_total, mapping_errors, mapping_total (full; D14 repaired by 7f47b5f)
+  frame         mapping_function_of_parse_and_dependencies, mapping_independent_of_output_configuration,
+                mapping_frame_idempotent, mapping_frame_necessary
   continuation  mapping_continuation_invariant (repaired access kind), mapping_continuation_invariant_partial,
                 old behaviour: continuation_drops_saved, mapping_continuation_invariant_refuted_for_getattr
 -/
@@ -418,6 +420,65 @@ theorem mapping_total (tables : List TableInfo) (deps : List Dep) (decls : List 
 -- the lookup is kept, gets no `after:`, and generation succeeds
 example : mappingFromRecipe [⟨"A", ["r"], [none]⟩] [⟨"A", "__H", "r"⟩] [] =
     .ok [("Insert A", ⟨"A", "A", [], [⟨"r", "__H", none⟩], none, []⟩)] := by decide
+
+/-! ### the mapping depends on the parse result and the dependency set only -/
+
+/-- **Frame theorem.** If the run writes nothing into the parse-time table infos (the pinned fact
+    `C16Bridge.unmodelled_field_writes_none`), the mapping of the run is the mapping of (parse result,
+    recorded dependencies, declarations): it is a function of these alone. -/
+theorem mapping_function_of_parse_and_dependencies (tables : List TableInfo) (deps : List Dep)
+    (decls : List Decl) : mappingOfRun [] tables deps decls = mappingFromRecipe tables deps decls := rfl
+
+/-- **Independence of how the run was driven.** Two runs of one recipe (same parse result, same
+    recorded dependencies) whose output configurations write nothing into the table infos produce the
+    same mapping — whatever the output streams were. -/
+theorem mapping_independent_of_output_configuration (ws₁ ws₂ : List FieldWrite)
+    (h₁ : ws₁ = []) (h₂ : ws₂ = []) (tables : List TableInfo) (deps : List Dep) (decls : List Decl) :
+    mappingOfRun ws₁ tables deps decls = mappingOfRun ws₂ tables deps decls := by
+  subst h₁; subst h₂; rfl
+
+/-- Writes that only repeat existing fields (or name tables that do not exist) are harmless. -/
+theorem mapping_frame_idempotent (ws : List FieldWrite) (tables : List TableInfo) (deps : List Dep)
+    (decls : List Decl)
+    (h : ∀ w ∈ ws, ∀ t ∈ tables, t.name = w.table → w.column ∈ t.fields) :
+    mappingOfRun ws tables deps decls = mappingFromRecipe tables deps decls := by
+  have hw : ∀ w ∈ ws, applyWrite w tables = tables := by
+    intro w hw
+    unfold applyWrite
+    conv => rhs; rw [← List.map_id tables]
+    apply List.map_congr_left
+    intro t ht
+    by_cases hn : t.name = w.table
+    · have := h w hw t ht hn
+      simp [hn, this]
+    · simp [hn]
+  have : applyWrites ws tables = tables := by
+    unfold applyWrites
+    induction ws with
+    | nil => rfl
+    | cons w ws ih =>
+      simp only [List.foldl_cons]
+      rw [hw w (by simp)]
+      exact ih (fun w' hw' => h w' (by simp [hw'])) (fun w' hw' => hw w' (by simp [hw']))
+  unfold mappingOfRun
+  rw [this]
+
+/-- **The frame condition is necessary**: one in-place `setdefault("id")` on a table (what building a
+    CSV header inside `table.fields` does) makes the load step list the non-recipe column `id`. -/
+theorem mapping_frame_necessary :
+    mappingOfRun [⟨"A", "id"⟩] [⟨"A", ["g"], [none]⟩] [] [] ≠
+      mappingOfRun [] [⟨"A", ["g"], [none]⟩] [] [] ∧
+    mappingOfRun [⟨"A", "id"⟩] [⟨"A", ["g"], [none]⟩] [] [] =
+      .ok [("Insert A", ⟨"A", "A", [("g", "g"), ("id", "id")], [], none, []⟩)] := by
+  constructor
+  · intro h
+    have h1 : mappingOfRun [⟨"A", "id"⟩] [⟨"A", ["g"], [none]⟩] [] [] =
+        .ok [("Insert A", ⟨"A", "A", [("g", "g"), ("id", "id")], [], none, []⟩)] := by decide
+    have h2 : mappingOfRun [] [⟨"A", ["g"], [none]⟩] [] [] =
+        .ok [("Insert A", ⟨"A", "A", [("g", "g")], [], none, []⟩)] := by decide
+    rw [h1, h2] at h
+    simp at h
+  · decide
 
 /-! ### continuation -/
 
